@@ -690,6 +690,7 @@ type Facts struct {
 	Loops, Branches int
 	UnsupportedOps  []string
 	HasChan         bool
+	Channels        int // channels the machine will hold: declared ones plus the implicit one of every go statement with a by-value argument
 	HasGo           bool
 	MemVars         int
 	DefineMem       []string // name := expr with a memory (non reg_) name
@@ -810,6 +811,7 @@ func (w *factWalker) stmt(s ast.Stmt) {
 				case *ast.ChanType:
 					w.lab("var-chan")
 					w.f.HasChan = true
+					w.f.Channels++
 				case *ast.SelectorExpr:
 					w.lab("var-" + t.Sel.Name)
 				}
@@ -941,6 +943,7 @@ func (w *factWalker) stmt(s ast.Stmt) {
 				for _, p := range fd.Type.Params.List {
 					if _, isChan := p.Type.(*ast.ChanType); !isChan {
 						w.f.GoValueArgs = append(w.f.GoValueArgs, id.Name)
+						w.f.Channels++
 						w.lab("go-value-arg")
 					} else {
 						w.lab("go-chan-arg")
